@@ -27,13 +27,13 @@ var (
 )
 
 type op struct {
-	kind   string // prepare add update reset serialize
-	stype  string
-	id     int
-	path   string
-	extra  int
-	ies    []*entities.InfoElement
-	vals   [][]int
+	kind  string // prepare add update reset serialize
+	stype string
+	id    int
+	path  string
+	extra int
+	ies   []*entities.InfoElement
+	vals  [][]int
 }
 
 func obs(s entities.Set, ev vt.Ev) vt.Ev {
